@@ -47,6 +47,8 @@ TRAITS = [
     "pub trait K {\n    const NAME: &'static str;\n    const ID: u8 = 0;\n    fn f() -> &'static str { \"default\" }\n}\n",
     "pub trait K: Sized + Tr0 where Self: Clone {\n    const NAME: &'static str;\n    const ID: u8 = 0;\n    fn f() -> &'static str { \"default\" }\n    fn g(&self, x: u8) -> u8 where Self: Sized { x + Self::ID }\n}\n",
     "pub(crate) trait K {\n    const NAME: &'static str;\n    const ID: u8 = 1 + 2;\n    fn f() -> &'static str { if Self::ID > 1 { \"default\" } else { \"other\" } }\n}\n",
+    # outer and inner attributes of the trait, attributes of its items
+    "#[allow(dead_code)]\n#[doc = \"outer\"]\npub trait K {\n    #![allow(non_snake_case)]\n    #![doc = \"inner\"]\n    const NAME: &'static str;\n    #[doc = \"id\"]\n    const ID: u8 = 0;\n    #[inline]\n    fn f() -> &'static str { \"default\" }\n}\n",
 ]
 
 
@@ -91,7 +93,7 @@ def run(tier, seed, replay=None):
     for i in range(n):
         c = gp.gen_case(rng, ['flat', 'multi', 'nested', 'unsized'][i % 4])
         # supertraits/where-clauses of the richer trait texts need world support: Tr0 + Clone for atoms
-        cases.append((c, TRAITS[i % len(TRAITS)] if i % len(TRAITS) == 0 else TRAITS[0] if i % 2 else TRAITS[2]))
+        cases.append((c, [TRAITS[0], TRAITS[3], TRAITS[2], TRAITS[0], TRAITS[3]][i % 5]))
     # (1) expanded text
     for c, ttext in cases:
         prog, inv = module_program(c, ttext)
